@@ -40,6 +40,13 @@ func ParseRemoteSource(given string) (RemoteSource, error) {
 	}
 
 	pkgRaw, subPathRaw := splitSubPath(expandedGiven)
+	// RemoteSource.String writes the sub-path as part of the URL path, where
+	// it is percent-encoded, so we must decode it here for printing and
+	// parsing to agree with each other.
+	subPathRaw, err := url.PathUnescape(subPathRaw)
+	if err != nil {
+		return RemoteSource{}, fmt.Errorf("invalid sub-path: %w", err)
+	}
 	subPath, err := normalizeSubpath(subPathRaw)
 	if err != nil {
 		return RemoteSource{}, fmt.Errorf("invalid sub-path: %w", err)
